@@ -530,6 +530,83 @@ func harnesses() []harness {
 				return strings.Join(append(append(rw.lines, rr.lines...), re.lines...), "; ")
 			}
 		}},
+		{"H11 background pruning, export opened while a deletion request is pending: writer(open async tree, DeleteVersionsTo(3) [3 is the latest version], Export v3, commit v4, commit v5, read the export to its end, Close export, Close tree) || export goroutine || pruner", func(cfg c06Cfg) ([]func(), func() string) {
+			base := prelude(cfg)
+			st := storeOf[base]
+			var rw rec
+			writer := func() {
+				t2 := iavl.NewMutableTree(st, cfg.Cache, !cfg.Fast, iavl.NewNopLogger(), iavl.AsyncPruningOption(true))
+				if _, err := t2.Load(); err != nil {
+					rw.add("writer: Load: %v", err)
+					return
+				}
+				// nobody reads version 3 yet; the request cannot be carried out before a newer version exists
+				if err := t2.DeleteVersionsTo(3); err != nil {
+					observe("request-rejected")
+				}
+				it3, err := t2.GetImmutable(3)
+				if err != nil {
+					rw.add("writer: GetImmutable(3): %v", err)
+					return
+				}
+				e, err := it3.Export()
+				if err != nil {
+					rw.add("writer: Export(v3): %v", err)
+					return
+				}
+				// version 3 is pinned from here until e.Close(); two commits follow (the second one writes out
+				// whatever the pruner has staged)
+				for i, val := range []string{"7", "8"} {
+					t2.SetCommitting()
+					if _, err := t2.Set([]byte("a"), []byte(val)); err != nil {
+						rw.add("writer: Set(a): %v", err)
+					}
+					if _, v, err := t2.SaveVersion(); err != nil || v != int64(4+i) {
+						rw.add("writer: SaveVersion = %d, %v", v, err)
+					}
+					t2.UnsetCommitting()
+				}
+				got := map[string]string{}
+				nodes := 0
+				var nextErr error
+				for {
+					n, err := e.Next()
+					if err != nil {
+						if !errors.Is(err, iavl.ErrorExportDone) {
+							nextErr = err
+						}
+						break
+					}
+					nodes++
+					if n.Height == 0 {
+						got[string(n.Key)] = string(n.Value)
+					}
+				}
+				if nextErr != nil || nodes != 5 || !sameMap(got, c06Contents[3]) {
+					rw.add("export of version 3 (pinned while its deletion was only pending) delivered %d of 5 nodes, leaves %v (error: %v)", nodes, got, nextErr)
+				}
+				var r2 rec
+				epilogue(&r2, t2, map[int64]map[string]string{3: c06Contents[3], 4: {"a": "7", "b": "2", "c": "3"}, 5: {"a": "8", "b": "2", "c": "3"}})
+				for _, l := range r2.lines {
+					rw.add("while version 3 is still pinned: %s", l)
+				}
+				e.Close()
+				if err := t2.Close(); err != nil {
+					rw.add("writer: Close: %v", err)
+				}
+			}
+			return []func(){writer}, func() string {
+				var re rec
+				t3 := iavl.NewMutableTree(st, 0, !cfg.Fast, iavl.NewNopLogger())
+				if _, err := t3.Load(); err != nil {
+					re.add("epilogue: Load on the store after Close: %v", err)
+				} else {
+					observe("versions-after-close=%v", t3.AvailableVersions())
+					epilogue(&re, t3, map[int64]map[string]string{4: {"a": "7", "b": "2", "c": "3"}, 5: {"a": "8", "b": "2", "c": "3"}})
+				}
+				return strings.Join(append(rw.lines, re.lines...), "; ")
+			}
+		}},
 		{"H10 writer(Remove,Set,SaveVersion) || exporter(Export v3, read all, Close) || export goroutine", func(cfg c06Cfg) ([]func(), func() string) {
 			t := prelude(cfg)
 			t3, err := t.GetImmutable(3)
@@ -867,7 +944,7 @@ func init() {
 				skipped = append(skipped, hs[hi].name+": the export.go rewrite did not apply to this tree")
 				continue
 			}
-			if strings.HasPrefix(hs[hi].name, "H8") && (os.Getenv("VERIF_H4") != "1" || os.Getenv("VERIF_H5") != "1") {
+			if (strings.HasPrefix(hs[hi].name, "H8") || strings.HasPrefix(hs[hi].name, "H11")) && (os.Getenv("VERIF_H4") != "1" || os.Getenv("VERIF_H5") != "1") {
 				skipped = append(skipped, hs[hi].name+": the export.go / nodedb.go rewrites did not apply to this tree")
 				continue
 			}
@@ -876,7 +953,7 @@ func init() {
 				continue
 			}
 			for ci := range cfgs {
-				three := strings.HasPrefix(hs[hi].name, "H3") || strings.HasPrefix(hs[hi].name, "H4") || strings.HasPrefix(hs[hi].name, "H5") || strings.HasPrefix(hs[hi].name, "H8") || strings.HasPrefix(hs[hi].name, "H10")
+				three := strings.HasPrefix(hs[hi].name, "H3") || strings.HasPrefix(hs[hi].name, "H4") || strings.HasPrefix(hs[hi].name, "H5") || strings.HasPrefix(hs[hi].name, "H8") || strings.HasPrefix(hs[hi].name, "H10") || strings.HasPrefix(hs[hi].name, "H11")
 				if c.Tier == "quick" && three && ci != 1 && ci != 2 {
 					continue // quick: the 3-thread harnesses run under two configurations (cache 100 + index, cache 0 without)
 				}
@@ -906,7 +983,7 @@ func init() {
 				bin = raceBin
 				b = bound - 1
 			}
-			three := strings.HasPrefix(hs[j.hi].name, "H3") || strings.HasPrefix(hs[j.hi].name, "H4") || strings.HasPrefix(hs[j.hi].name, "H5") || strings.HasPrefix(hs[j.hi].name, "H8") || strings.HasPrefix(hs[j.hi].name, "H10")
+			three := strings.HasPrefix(hs[j.hi].name, "H3") || strings.HasPrefix(hs[j.hi].name, "H4") || strings.HasPrefix(hs[j.hi].name, "H5") || strings.HasPrefix(hs[j.hi].name, "H8") || strings.HasPrefix(hs[j.hi].name, "H10") || strings.HasPrefix(hs[j.hi].name, "H11")
 			if three {
 				b-- // three threads: one preemption less
 			}
@@ -1059,7 +1136,7 @@ func init() {
 			"explanation_c06": "every schedule (choice sequence at lock acquisitions and storage calls) with at most the stated number of preemptions is executed on the real code; the -race build runs the same enumeration with the race detector active inside each schedule (the scheduler's hand-off uses raw futex calls from norace code and adds no happens-before edge)"}
 		res.Assumptions = []string{
 			"scheduling points: every Lock/RLock of the sync primitives used by iavl (rebuilt against the shim) and every storage call; code between two points runs atomically in the explorer (races inside such blocks are the race detector's job)",
-			"harnesses H1-H10: 2-3 threads, <= 3 operations each, one writer; H4 (export pinning vs pruning: the exporter goroutine and its channel run under the scheduler) and H5 (background pruning loop, SetCommitting/UnsetCommitting) use the rewritten export.go / nodedb.go of the sched build and are skipped (recorded in skipped_harnesses) if the rewrite does not apply to the current tree",
+			"harnesses H1-H11: 2-3 threads, <= 3 operations each, one writer; H4 (export pinning vs pruning: the exporter goroutine and its channel run under the scheduler) and H5 (background pruning loop, SetCommitting/UnsetCommitting) use the rewritten export.go / nodedb.go of the sched build and are skipped (recorded in skipped_harnesses) if the rewrite does not apply to the current tree",
 			"the storage is check/vstore (MemDB-like locking, snapshot iterators)",
 		}
 		return res
